@@ -356,6 +356,7 @@ func c17(r *ev.Result, tier string) {
 	/* First, sequentially: changing one converter's filter table changes no
 	other converter (the enumeration below relies on it, and runs in
 	parallel). */
+	c17BigFiles(r, base)
 	if !c17Independent(r, base) {
 		r.Exhaustive = false
 		r.Set("stopped", "converters share state; the parallel enumeration was not run")
@@ -560,6 +561,10 @@ func c17Independent(r *ev.Result, base string) bool {
 }
 
 func c17Replay(kind string, raw json.RawMessage) int {
+	if "c17big" == kind {
+		fmt.Println("the big-file scenario is replayed by re-running ./run C17 quick")
+		return 2
+	}
 	var c c17Case
 	if err := json.Unmarshal(raw, &c); nil != err {
 		return 2
@@ -583,4 +588,51 @@ func c17Replay(kind string, raw json.RawMessage) int {
 	}
 	fmt.Println("not reproduced")
 	return 0
+}
+
+// c17BigFiles: eligible files of 1..3 MiB (a function library, a script with
+// an embedded blob), in a directory and as a single-file source, filtered and
+// not: the payload holds all of every one of them.
+func c17BigFiles(r *ev.Result, base string) {
+	dir := filepath.Join(base, "big", "src")
+	os.MkdirAll(dir, 0o755)
+	defer os.RemoveAll(filepath.Join(base, "big"))
+	mk := func(tag string, n int) []byte {
+		var b bytes.Buffer
+		for i := 0; b.Len() < n; i++ {
+			fmt.Fprintf(&b, "%s_%06d() { echo 'function number %d of the %s library'; }\n", tag, i, i, tag)
+		}
+		return b.Bytes()
+	}
+	files := map[string][]byte{
+		"a_lib.sh":   mk("a", 1<<20+4099),
+		"b_lib.subr": mk("b", 3<<20),
+		"c_small.sh": []byte("c_small() { :; }\n"),
+		"notes.txt":  mk("n", 2<<20), /* Not eligible in a directory; unchanged as a single file. */
+	}
+	for n, c := range files {
+		os.WriteFile(filepath.Join(dir, n), c, 0o644)
+	}
+	v := func(sig, what string) {
+		r.Violate(ev.Violation{Signature: "big-files/" + sig, What: what, Kind: "c17big", Replay: map[string]string{"scenario": "files of 1-3 MiB"}})
+	}
+	want := append(append(append([]byte{}, files["a_lib.sh"]...), files["b_lib.subr"]...), files["c_small.sh"]...)
+	got, err := shellfuncsfile.NewDefaultConverter().From(dir)
+	switch {
+	case nil != err:
+		v("conversion-failed", err.Error())
+	case !bytes.Equal(got, want):
+		v("payload-differs/directory", fmt.Sprintf("a directory with a 1 MiB+4 KiB .sh file, a 3 MiB .subr file and a small one: the payload has %d bytes, the eligible files together %d (first difference at byte %d)", len(got), len(want), firstDiff(got, want)))
+	}
+	for _, n := range []string{"a_lib.sh", "b_lib.subr", "notes.txt"} {
+		got, err := shellfuncsfile.NewDefaultConverter().From(filepath.Join(dir, n))
+		if nil != err {
+			v("conversion-failed", n+": "+err.Error())
+		} else if !bytes.Equal(got, files[n]) {
+			v("payload-differs/single-file", fmt.Sprintf("single-file source %s of %d bytes: the payload has %d bytes (first difference at byte %d)", n, len(files[n]), len(got), firstDiff(got, files[n])))
+		}
+	}
+	r.Add(4)
+	r.AddDistinct(4)
+	r.Set("big_file_sources", 4)
 }
